@@ -13,6 +13,7 @@ type hWeights struct {
 	outside                                                                                                              int // per-mille of deliveries placed outside their snapshot (C06)
 	reopenFail                                                                                                           int // per-mille of transient ends whose first reopen attempt is refused
 	maxVb, minOps, maxOps                                                                                                int
+	transientOnly                                                                                                        bool // stream ends are generated with transient causes only (the history goes on)
 }
 
 var absorbedKinds = []string{"cc", "cd", "cf", "sc", "sd", "cm", "adv", "adv", "ikey", "txn"}
@@ -97,7 +98,11 @@ func genHistory(t *rapid.T, w hWeights) hScenario {
 			op.Vb = rapid.IntRange(0, nvb-1).Draw(t, "vb")
 		case "end":
 			op.Vb = rapid.IntRange(0, nvb-1).Draw(t, "vb")
-			op.Kind = rapid.SampledFrom(endCauseNames).Draw(t, "cause")
+			if w.transientOnly {
+				op.Kind = rapid.SampledFrom(endCauseNames[:5]).Draw(t, "cause")
+			} else {
+				op.Kind = rapid.SampledFrom(endCauseNames).Draw(t, "cause")
+			}
 			op.Fail = w.reopenFail > 0 && rapid.IntRange(0, 999).Draw(t, "refuse") >= 1000-w.reopenFail
 		}
 		return op
